@@ -793,6 +793,10 @@ func (ex *Exec) doReturn(st *State, res Value) {
 	if fr.IsDefer {
 		return // caller re-executes RunDefers
 	}
+	if fr.IsMemo {
+		caller.Memo = append(caller.Memo, res)
+		return // caller re-executes its instruction and finds the result
+	}
 	if fr.RetTo != nil {
 		ex.set(caller, fr.RetTo, res)
 	}
@@ -814,6 +818,9 @@ func (ex *Exec) callValue(st *State, fr *Frame, fnv Value, args []Value, retTo s
 			return
 		}
 		if intr, ok := ex.Intr[f.Fn.String()]; ok {
+			if ex.IntrHit != nil {
+				ex.IntrHit[f.Fn.String()]++
+			}
 			if call != nil {
 				ex.curSite = ex.site(call.Pos())
 			}
@@ -880,6 +887,15 @@ func (ex *Exec) resolveCall(st *State, fr *Frame, cc *ssa.CallCommon) (Value, []
 
 // step executes one instruction; false => path ended or was handed to the worklist.
 func (ex *Exec) step(st *State, fr *Frame, in ssa.Instruction) bool {
+	fr.MemoIdx = 0
+	if fr.Memo != nil {
+		blk, ip := fr.Block, fr.IP
+		defer func() {
+			if fr.Block != blk || fr.IP != ip {
+				fr.Memo = nil
+			}
+		}()
+	}
 	switch in := in.(type) {
 	case *ssa.Alloc:
 		id := st.alloc(&Object{V: ex.zero(in.Type().(*types.Pointer).Elem())})
@@ -1197,4 +1213,22 @@ func tail(s []string, n int) []string {
 		return s[len(s)-n:]
 	}
 	return s
+}
+
+// helperCall lets an intrinsic obtain the result of an interpreted function: the first time the frame is
+// pushed and ok=false is returned (the intrinsic must then return (nil,false) without side effects);
+// when the helper returns, the calling instruction is executed again and helperCall yields the result.
+func (ex *Exec) helperCall(st *State, fn *ssa.Function, args []Value, env []Value) (Value, bool) {
+	fr := st.frame()
+	if fr.MemoIdx < len(fr.Memo) {
+		v := fr.Memo[fr.MemoIdx]
+		fr.MemoIdx++
+		return v, true
+	}
+	if r, ok := st.Repl[fn.String()]; ok {
+		fn, env = r.Fn, r.Env
+	}
+	ex.pushFrame(st, fn, args, env, nil)
+	st.frame().IsMemo = true
+	return nil, false
 }
